@@ -207,6 +207,12 @@ def encode_inputs(ctx, crate, crs, tag):
             ctx.ob(R, b.key, "start-encodes-only-the-run's-solvable", ok, where_call(b, i),
                    "the first encode of a run receives exactly the run's solvable (reads: %s)" % ", ".join(sorted(lv)))
         else:
+            # the whole trail is scanned: no adaptor that skips or truncates it (a prefix "already processed by an earlier run" is
+            # not a safe assumption once a backjump went below the run's starting level)
+            bad_ad = sorted({x[5:] for x in lv if x.startswith("call:")} & {"skip_while", "skip", "take", "take_while", "step_by", "rev", "nth",
+                                                                              "last", "next_back", "rposition", "split_off", "truncate"})
+            ctx.ob(R, b.key, "scans-the-whole-trail", not bad_ad, where_call(b, i),
+                   "newly selected solvables are looked for on the complete decision stack%s" % ((" (uses %s)" % ", ".join(bad_ad)) if bad_ad else ""))
             allowed = {"field:state.decision_tracker", "field:state.clauses_added_for_solvable", "field:state.variable_map"}
             ok = "field:state.decision_tracker" in flds and flds <= allowed and not args and not unk
             ctx.ob(R, b.key, "later-encodes-only-decided-solvables", ok, where_call(b, i),
